@@ -437,6 +437,11 @@ def r3_content_type(ctx):
     for b, st in aggs:
         bs = lr.slice(agg_field_op(st, "body_content_type"), stop_at_calls=r"find_handler_matching_version$")
         ok = bs.reads_field("body_content_type") and bs.has_call(r"find_handler_matching_version$") and only_plumbing(bs, [r"find_handler_matching_version$"])
+        if not ok:
+            from .lib_c01 import answer_field_from_selection
+            lrn = ctx.dsn.one(r"^router::HttpRouter::<Context>::lookup_route$")
+            an = [st2 for b2, i2, st2 in lrn.aggregates(r"^handler::RequestEndpointMetadata$")] if lrn else []
+            ok = len(an) == 1 and answer_field_from_selection(ctx.dsn, lrn, agg_field_op(an[0], "body_content_type"), "body_content_type")[0]
         ctx.check(R, "router:passes-endpoint-content-type", ok, "RequestEndpointMetadata.body_content_type = selected endpoint's body_content_type: %s (callees %s)" % (ok, bs.callee_names()), (lr, b))
     # TypedBody documents the content type it is given
     im = _impl_of(ds, "extractor::common::ExclusiveExtractor", "extractor::body::TypedBody<")
